@@ -6,6 +6,15 @@
 // a name only (an IPv6 address makes it fail after two bytes were buffered: the reply is then incomplete); a SOCKS5
 // reply can carry any address and names up to 255 bytes.
 #![allow(dead_code, unused_variables, unused_macros, static_mut_refs, unused_imports, unused_mut)]
+// `tracing::level!(..)` written with its path by an edit keeps compiling (log statements have no effect on the checks)
+pub mod tracing {
+    macro_rules! trace { ($($t:tt)*) => { () } }
+    macro_rules! debug { ($($t:tt)*) => { () } }
+    macro_rules! info { ($($t:tt)*) => { () } }
+    macro_rules! warn_ { ($($t:tt)*) => { () } }
+    macro_rules! error { ($($t:tt)*) => { () } }
+    pub(crate) use {trace, debug, info, warn_ as warn, error};
+}
 use std::future::{ready, Ready};
 macro_rules! warn_ { ($($t:tt)*) => { () } }
 macro_rules! trace { ($($t:tt)*) => { () } }
